@@ -28,7 +28,10 @@ MANIFEST = {
             "UTF-16 units at every depth (canon_emit, canon_sorted); output invariant under member permutation at top "
             "level and at every depth (canon_perm, canon_perm_deep); no whitespace outside string literals; sort/canon "
             "fixed point; an independent JSON reader parses the canonical text back to the key-ordered value "
-            "(canon_parse), hence the text determines the value (canon_injective).",
+            "(canon_parse), hence the text determines the value (canon_injective); the ES6 text and the repr text of a "
+            "double denote the same exact decimal 0.d1..dk*10^n under an independent number reader, so numbers parse back "
+            "to the same value (es6_denotes, num_value_preserved, num_roundtrip); NaN/Infinity refused at any depth; strict "
+            "order under distinct keys.",
     "design_ref": "DESIGN.md 6/C16, A.3, A.4",
     "note": "Model hand-written; tied to /repo by a correspondence run each check (doubles by bit pattern, boundary "
             "decimals, strings/keys with BMP/astral/control characters, nesting to depth 6, shuffled orders). "
@@ -37,7 +40,9 @@ MANIFEST = {
             "(CPython guarantee, sampled), Spec/Rfc8785.v written from memory of RFC 8785 / ECMA-262. Python ints with "
             "|z| > 2^53 are outside the model (the code converts them through float()). The reader of canon_parse returns "
             "number literals as text (float parsing is not modelled); the re-canonicalization fixed point through a real "
-            "reader (json.loads) is checked by the oracle on every case, the model-level fixed point is canon_fixpoint. No axioms.",
+            "reader (json.loads) is checked by the oracle on every case, the model-level fixed point is canon_fixpoint. "
+            "Thorough tier: the number part of the model extracted to OCaml (extract/c16) for ~750k doubles, cross-checked "
+            "against the kernel route on a sample. No axioms.",
     "technique": "Coq proof over a hand-written executable model + correspondence run + independent RFC 8785 oracle",
 }
 
